@@ -7,6 +7,16 @@ import subprocess
 VERIF = os.path.dirname(os.path.dirname(os.path.abspath(__file__)))
 
 CLAIMED = {
+    "C04": dict(
+        cat="other", ref="DESIGN.md §5 C04",
+        technique="static analysis: typestate/dataflow of the sorter's index assignment (visited-set history facts), permutation-application census in SetBlockOrder, prune-guard dominance, restart and stale-index discipline, effect containment",
+        text="Decides that the sorter's new-index map is injective (every store is a fresh newIndex++ under a not-visited test and "
+             "followed by marking) and total (completion loop dominates SetBlockOrder), that SetBlockOrder applies it to all parallel "
+             "tables and both reference kinds, that pruning deletes only unreferenced non-root blocks, restarts after each deletion "
+             "and never reads a stale root index, and that the sort/prune call tree writes nothing but sort state, child arrays, "
+             "reference indices, header tables and bounds.",
+        note="SortGraph's value-level child filters (duplicate shape names, F10), root-first placement and idempotence of sorting are "
+             "not decided; depends on C05"),
     "C05": dict(
         cat="proof", ref="DESIGN.md §5 C05",
         technique="static analysis: interprocedural member-path summaries over the clang AST (serialised refs vs enumerated refs, set inclusion per class)",
@@ -18,6 +28,26 @@ CLAIMED = {
         note="trusted: clang front end, tools/nifly-ast extractor, lib/paths.py canonicaliser (no aliasing between distinct canonical "
              "paths), std container value semantics. The consequence 'no stale index after edits' additionally needs the value-level "
              "index arithmetic of C06, which is not decided."),
+    "C01": dict(
+        cat="other", ref="DESIGN.md §5 C01",
+        technique="static analysis: reader-vs-writer wire-schema comparison per version region (summary composition + version partial evaluation), CRTP wiring census, count/array coherence dataflow, registry census",
+        text="Decides read/write symmetry of the code, the structural necessary condition of an exact round trip: for every registered "
+             "class, the header and the hand-written pairs, in every version region, the ordered member fields (path, width, loops, "
+             "data gates) transferred by Get equal those transferred by Put; mode-specific sections must be in a triaged table; each "
+             "class is wired to the CRTP base for itself; counted arrays are resized to the count before being indexed/transferred; "
+             "every registered type writes its own unique block name; the default-save pruner restarts after each deletion "
+             "(one-save fixpoint). Covers all 304 types x all version gates. Byte equality itself is not decided.",
+        note="value-level encode/decode asymmetries inside one shared expression, PrepareData<->FinalizeData inverse-ness and the "
+             "two-round bound are not decided; NDS headers are outside the supported version space (alias table)"),
+    "C02": dict(
+        cat="other", ref="DESIGN.md §5 C02",
+        technique="static analysis: write-path effect analysis (ordered transfer/mutation events of every class's Put in write mode by summary composition), triaged mutation census, effect containment of the pre-write pipeline",
+        text="Decides the structural clauses: in write mode no member is changed after it was written (else save #2 differs from "
+             "save #1), every other write-mode mutation is a counted-array resize or an entry of a triaged one-symbol-wide table, and "
+             "FinalizeData's call tree assigns only derived data. Found and fixed this way: FO76 shader type drift, OB tangent flag "
+             "cleared by saving; recorded as known findings: match groups cleared after writing, hasVertWeights clamp.",
+        note="value changes hidden inside an accepted derivation (a wrong dataSize formula) and idempotence of FinalizeData on "
+             "values are not decided; canonical member paths are assumed not to alias"),
     "C03": dict(
         cat="other", ref="DESIGN.md §5 C03",
         technique="static analysis: interprocedural guard dominance (must-pass-through of the hasUnknown guard over the CHA call graph with per-call-site dataflow facts), who-may-write census",
@@ -29,6 +59,35 @@ CLAIMED = {
              "code, so a new unguarded path is found without listing it. Byte equality of the payload itself is not decided.",
         note="assumes calls between a guard and a primitive do not change hasUnknown (backed by the who-may-write rule); CHA "
              "over-approximates virtual dispatch; value-level corruption of payload bytes in place is out of reach"),
+    "C06": dict(
+        cat="other", ref="DESIGN.md §5 C06",
+        technique="static analysis: parallel-table pairing rules over every NiHeader mutator, delete=>notify obligation dataflow, stale-block-index typestate over every deleting function",
+        text="Decides header consistency structurally: every function that changes the block list applies the same operation (same "
+             "position) to blockTypeIndices, gated blockSizes and numBlocks; type-table changes are paired with their count and the "
+             "index shift; DeleteBlock notifies every remaining block about the index it erased; fix-up consumers use both "
+             "enumerators; type names come from the stored object; and no plain integer block index is read after a deleting call "
+             "without being re-derived or adjusted.",
+        note="the index arithmetic inside BlockDeleted (== clears, > decrements) and the type-table refcount threshold are value-level "
+             "and not decided; depends on C05"),
+    "C07": dict(
+        cat="other", ref="DESIGN.md §5 C07",
+        technique="static analysis: byte-accounting pairing in NiOStream (symbolic sum comparison), single-writer census, save-protocol typestate over NifFile::Save, string-table pairing",
+        text="Sizes are re-measured on every save, so the size-table clause reduces to structure: every NiOStream method counts "
+             "exactly the bytes it hands to the stream; nothing on the save path writes to the ostream except through NiOStream; Save "
+             "resets the counter after the header and every block, captures each block's size into its own slot, writes the footer "
+             "and back-patches exactly GetNumBlocks() 4-byte sizes at the recorded position; string count/array stay paired, strings "
+             "are found before appended and the maximum length is refreshed.",
+        note="uint32 overflow of sizes is not decided; header Get/Put layout agreement is decided under C01"),
+    "C08": dict(
+        cat="translation_validation", ref="DESIGN.md §5 C08",
+        technique="static analysis: translation validation of the wire schema against vendored reference sources (same extractor, summary composition, version-region partial evaluation), ABI layout comparison",
+        text="For every registered class, the header and NiUnknown, in every version region and both directions, the wire schema "
+             "(fields by member path, order, width, loops, data gates, early exits) of /repo's current sources is compared with that "
+             "of the vendored reference sources; plus size/offsets of every trivially copyable value type, enum sizes/values, the "
+             "(class, block name) registry and Load's version acceptance. Any added/removed/swapped/re-typed/re-gated field in any "
+             "of the 304 types in any version is reported with class, region and both sub-sequences; pure member renames are tolerated.",
+        note="reference = pinned sources vendored under /verif/reference; a data gate rewritten into an algebraically equal but "
+             "differently shaped expression would be reported (stated residual); primitive semantics (SyncHalf) only via layouts"),
     "C11": dict(
         cat="proof", ref="DESIGN.md §5 C11",
         technique="static analysis: ownership census over record layouts/types (no pointer-like members outside the re-linked caches), re-link dominance dataflow in CopyFrom, clone-wiring and mutable-static census",
